@@ -1304,9 +1304,22 @@ def run(ctx):
     budget = 3000 if quick else max(3000, 80000 // nw)
     done = 0
     it = 0
+    def lenient_block_left_by_exception():
+        # what went wrong earlier in the process must not matter: a caller's lenient scoped profile left by an exception of
+        # the caller's own (and handled there) is over — malformed input is rejected again afterwards
+        import biom.err as E
+        try:
+            with E.errstate(obsdup="ignore", sampdup="ignore", obssize="ignore", sampsize="ignore",
+                            obsmdsize="ignore", sampmdsize="ignore"):
+                raise RuntimeError("caller's own failure inside a lenient block")
+        except RuntimeError:
+            pass
+        ctx.count("prelude=lenient-block-left-by-exception")
     while done < budget:
         G, obs, samp, encs = kept[it % len(kept)]
         it += 1
+        if it % 3 == 1:
+            lenient_block_left_by_exception()
         # every form of this grid gets every single malformation; pairs/triples are sampled
         for data, dense in (encs if it <= 3 or not quick else rng.sample(encs, min(6, len(encs)))):
             combos = list(singles) if it <= 6 else rng.sample(singles, 4)
@@ -1363,6 +1376,15 @@ def run(ctx):
 def replay(ctx, rec):
     case = rec["case"]
     op = case.get("op")
+    if "malformed" in rec.get("tags", []):
+        # the malformed stream runs after a lenient scoped profile left by an exception (see run): same here
+        import biom.err as E
+        try:
+            with E.errstate(obsdup="ignore", sampdup="ignore", obssize="ignore", sampsize="ignore",
+                            obsmdsize="ignore", sampmdsize="ignore"):
+                raise RuntimeError("caller's own failure inside a lenient block")
+        except RuntimeError:
+            pass
     if op == "import":
         try:
             import biom  # noqa
